@@ -48,10 +48,11 @@ func runSelfTest(r *Run, spec *propSpec) {
 	loadMutants()
 	ms := mutantCatalogue[spec.ID]
 	seeds := seededFor(spec.ID)
-	if len(ms) == 0 && len(seeds) == 0 {
+	if bd, _ := filepath.Glob(filepath.Join(verifDir(), "benign", spec.ID+"-*")); len(ms) == 0 && len(seeds) == 0 && len(bd) == 0 {
 		return
 	}
 	defer runSeeded(r, spec, seeds)
+	defer runBenign(r, spec)
 	r.Rule(spec.ID+".SELF", "checker sensitivity: every catalogued source rewrite (overlay, in memory) that breaks a clause must be reported by the rule naming the mutated construct, and every catalogued behaviour-preserving rewrite (renamed locals, cached operands, split statements, added checks, reordered independent checks, equivalent conditions, loop forms) must not be reported; a surviving mutant or a false alarm fails the thorough check")
 	st := &MutantStats{}
 	r.Mutants = st
@@ -226,6 +227,62 @@ func runSeeded(r *Run, spec *propSpec, seeds []seededChange) {
 		default:
 			st.Names = append(st.Names, sc.ID+": NO LONGER REPORTED")
 			r.FailKind("checker-insensitive", spec.ID+".SEED", sc.ID, "seeded change "+sc.ID+" used to be reported and no longer is")
+		}
+	}
+}
+
+// runBenign re-analyses the tree with each stored behaviour-preserving refactoring (benign/<id>/patch.diff,
+// written by independent agents told to keep behaviour identical) applied in memory. Those recorded as
+// silent must stay silent – a report would be a false alarm of the checker; the ones the rules are known
+// to report although behaviour is unchanged (DESIGN §10) are listed, not hidden.
+func runBenign(r *Run, spec *propSpec) {
+	dirs, _ := filepath.Glob(filepath.Join(verifDir(), "benign", spec.ID+"-*"))
+	if len(dirs) == 0 {
+		return
+	}
+	r.Rule(spec.ID+".BENIGN", "no false alarm on stored behaviour-preserving refactorings: every refactoring under benign/ recorded as silent (helper extraction, renames, cached operands, early-return inversion, loop forms, merged / split conditions, moved functions …) applied as an in-memory overlay yields no violation; refactorings the rules are known to over-report are listed with the reporting rule")
+	st := r.Mutants
+	if st == nil {
+		st = &MutantStats{}
+		r.Mutants = st
+	}
+	for _, d := range dirs {
+		var meta struct {
+			Silent bool
+			Kind   string
+		}
+		if err := readJSON(filepath.Join(d, "meta.json"), &meta); err != nil {
+			continue
+		}
+		id := "benign/" + filepath.Base(d)
+		bs, err := os.ReadFile(filepath.Join(d, "patch.diff"))
+		if err != nil {
+			continue
+		}
+		ov, err := applyUnifiedDiff(repoRoot(), string(bs))
+		if err != nil {
+			st.Skipped++
+			st.Names = append(st.Names, id+": skipped ("+firstLine(err.Error())+")")
+			continue
+		}
+		viol, err := analyseOverlay(spec, ov)
+		if err != nil {
+			st.Skipped++
+			st.Names = append(st.Names, id+": skipped ("+firstLine(err.Error())+")")
+			continue
+		}
+		st.Applied++
+		switch {
+		case len(viol) == 0:
+			st.Killed++
+			st.Names = append(st.Names, id+": silent")
+			r.Pass(spec.ID+".BENIGN", id, id, "behaviour-preserving refactoring ("+meta.Kind+") is not reported")
+		case !meta.Silent:
+			st.Names = append(st.Names, id+": known over-report ("+firstLine(viol[0])+")")
+			r.Pass(spec.ID+".BENIGN", id, id, "known over-report (DESIGN §10): "+viol[0])
+		default:
+			st.Names = append(st.Names, id+": FALSE ALARM")
+			r.FailKind("checker-overreports", spec.ID+".BENIGN", id, "behaviour-preserving refactoring is reported: "+viol[0])
 		}
 	}
 }
